@@ -271,6 +271,15 @@ func c03Run(r *runCtx, id string, f []string) {
 // ---- generator -----------------------------------------------------------------------------
 
 var c03Hand = []string{
+	// extreme numeric literals wherever the grammar takes a number: anything sized or indexed by
+	// a literal of the source must survive the largest values the lexer accepts
+	"counter c by k limit 9223372036854775807\n/(\\w+)/ { c[$1]++ }\n", "counter c by k limit 1000000000000000\n/(\\w+)/ { c[$1]++ }\n",
+	"counter c by k limit 35184372088833\n/(\\w+)/ { c[$1]++ }\n", "counter c by k limit 0\n/(\\w+)/ { c[$1]++ }\n", "counter c limit 9223372036854775807\n/x/ { c++ }\n",
+	"counter c by k limit 9223372036854775808\n/(\\w+)/ { c[$1]++ }\n", "counter c by a, b limit 4611686018427387904\n/(\\w+) (\\w+)/ { c[$1][$2]++ }\n",
+	"histogram h buckets 1e308, 1.7976931348623157e308\n/(\\d+)/ { h = $1 }\n", "histogram h buckets 0, 4.9e-324\n/(\\d+)/ { h = $1 }\n", "histogram h by k buckets 1, 2 limit 9223372036854775807\n/(\\d+) (\\w+)/ { h[$2] = $1 }\n",
+	"counter c by k\n/(\\w+)/ { del c[$1] after 2562047h }\n", "counter c by k\n/(\\w+)/ { del c[$1] after 9999999999h }\n", "counter c by k\n/(\\w+)/ { del c[$1] after 1ns }\n",
+	"counter c by k\n/(\\w+)/ { del c[$1] after 500ms\n c[$1]++ }\n", "counter c by k\n/(\\w+)/ { del c[$1] after 0s\n c[$1]++ }\n",
+	"gauge g\n/x/ { g = 9223372036854775807 + 1 }\n", "gauge g\n/x/ { g = 2 ** 9223372036854775807 }\n", "gauge g\n/x/ { g = 1 << 9223372036854775807 }\n", "gauge g\n/(\\d+)/ { g = strtol($1, 9223372036854775807) }\n",
 	"", "\n", "#", "# comment without newline", "\"", "\"abc", "\"abc\\", "/", "/abc", "/abc\\", "/a/ {", "}", "{", "(", ")", "[", "]",
 	"\xff", "\xc3", "\xc3\x28", "\x00", "␤", "counter c\n␤/x/ { c++ }\n", "# c ␤ counter c\n", "\"a␤b\"\n", "12␤34\n",
 	"1", "1.", ".", "..", ".5", "1e", "1e+", "1E-", "1.5.5", "1h2m3s", "1d", "1s.5", "9999999999999999999999", "1e999", "-", "--", "-1", "- 1", "-x",
